@@ -526,8 +526,31 @@ fn run_rules(vname: &'static str, rules: AuthorizationRules, thorough: bool) -> 
                         for _ in 0..3 {
                             match real_resolve(&rules, po, &w, &tips) {
                                 Ok(g) if g == got => {}
+                                Ok(g) if g != want => {
+                                    // (the order of an event's auth_events is not part of the specification's input)
+                                    fail(&mut f_ref, describe(&json!(format!("with every auth_events list {} the result is {:?}", ["reversed", "rotated"][mode], show(&g)))));
+                                    fail(&mut f_det, describe(&json!(format!("with every auth_events list {} the result is {:?}", ["reversed", "rotated"][mode], show(&g)))));
+                                    break;
+                                }
                                 other => {
                                     fail(&mut f_det, describe(&json!(format!("with every auth_events list {} the result is {:?}", ["reversed", "rotated"][mode], other.map(|g| show(&g))))));
+                                    break;
+                                }
+                            }
+                        }
+                    }
+                    // a state set passed twice (two servers at the same fork) in every position: the same auth chain then occurs
+                    // twice, next to each other or not
+                    if tips.len() == 2 {
+                        let lists = [vec![tips[0].clone(), tips[0].clone(), tips[1].clone()], vec![tips[0].clone(), tips[1].clone(), tips[0].clone()], vec![tips[1].clone(), tips[0].clone(), tips[0].clone()]];
+                        for l in &lists {
+                            let want_l = resolve_ref(&rules, &w, l);
+                            match real_resolve(&rules, &pdus, &w, l) {
+                                Ok(g) if g == want_l && g == got => {}
+                                other => {
+                                    let msg = json!(format!("with the first state set passed twice (positions {:?}) the result is {:?}", l.iter().map(|x| if *x == tips[0] { 0 } else { 1 }).collect::<Vec<_>>(), other.map(|g| show(&g))));
+                                    fail(&mut f_ref, describe(&msg));
+                                    fail(&mut f_det, describe(&msg));
                                     break;
                                 }
                             }
